@@ -1,27 +1,37 @@
 ---------------------------- MODULE Resolver_Trace ----------------------------
-(* Judges recorded resolver runs (C15 + C16).  One event per (world, strategy) run:
-     {tid, i, ev:"resolve", kind:"upgrade"|"min"|"empty",
+(* Judges recorded resolver runs (C15 + C16).  One event per (world, strategy, mode) run:
+     {tid, i, ev:"resolve", kind:"upgrade"|"min"|"empty", mode:"batch"|"seq",
       pkgs:[{id,key,ver,slot,repo, depend:[item..], bdepend, rdepend, idepend, pdepend}],
       targets:[atom..],                       item = [alt..], alt = [atom..]
-      raised, exc, ok, ops:[{t,p,old}],       first run
-      raised2, ok2, ops2:[...]}               second run of the identical inputs
+      raised, exc, ok, ops:[{t,p,old}],       the session on ONE resolver instance:
+      done, marks:[n..],                        batch: add_atoms(all targets); after a failure the failed
+                                                target is dropped, reset(), add_atoms again (what pmerge
+                                                --ignore-failures does); `targets` are the ones finally asked for
+                                                seq: one add_atoms per target; done = how many succeeded,
+                                                marks[k] = length of ops before target k was given
+      raised2, ok2, ops2:[...]}               the identical session once more, on a fresh instance
    Verdict lines carry a record of details: <<"VERDICT", tid, i, clause, [pkg, what, via]>>.
    A line <<"JUDGED", tid, n>> tells how many policy clauses were in the judged domain.     *)
 EXTENDS Resolver, TraceLib
 VARIABLE l
 
+\* the targets the resolver reported success for
+Achieved(e, ts) == IF e.ok THEN SeqSet(ts) ELSE IF e.mode = "seq" THEN {ts[k] : k \in 1..e.done} ELSE {}
 Judge(e, w, ts, robust) ==
   IF ~WellFormed(w) \/ Len(ts) = 0 THEN {V("OutsideDomain", "-", "world", "-")}
   ELSE
     (IF e.raised \/ e.raised2
      THEN {V("NoCrash", "-", IF e.raised THEN e.exc ELSE e.exc2, IF SlotMoved(w) THEN "slotmoved" ELSE "-")} ELSE {})
     \cup (IF ~e.raised /\ ~OpsKnown(w, e.ops) THEN {V("OutsideDomain", "-", "ops", "-")}
-          ELSE IF ~e.raised /\ e.ok THEN PlanViolations(w, SeqSet(ts), e.ops) ELSE {})
-    \cup (IF ~e.raised /\ ~e.raised2 /\ (e.ok # e.ok2 \/ e.ops # e.ops2)
+          ELSE IF ~e.raised /\ Achieved(e, ts) # {} THEN PlanViolations(w, Achieved(e, ts), e.ops) ELSE {})
+    \* identical inputs, identical answer (nothing is promised about the state a failed resolution leaves)
+    \cup (IF ~e.raised /\ ~e.raised2 /\ (e.ok # e.ok2 \/ (e.ok /\ e.ops # e.ops2))
           THEN {V("Deterministic", "-", "ops", "-")} ELSE {})
     \* a crash leaves the targets unsatisfied: for the policy it is a failed resolution
     \cup (IF e.raised THEN PolicyViolationsIn(robust, e.kind, w, ts, FALSE, <<>>)
           ELSE IF OpsKnown(w, e.ops) THEN PolicyViolationsIn(robust, e.kind, w, ts, e.ok, e.ops) ELSE {})
+    \cup (IF ~e.raised /\ OpsKnown(w, e.ops) /\ e.kind \in {"upgrade", "min"}
+          THEN ReadyViolations(e.kind, w, ts, e.marks, e.done, e.ops) ELSE {})
 
 ReportV(tid, i, bad) == \A v \in bad : PrintT(<<"VERDICT", tid, i, v.clause, [pkg |-> v.pkg, what |-> v.what, via |-> v.via]>>)
 
@@ -33,6 +43,8 @@ TraceNext == /\ l < Len(Tr)
                     ts == TargetsOfSeq(e.targets)
                     robust == WellFormed(w) /\ Len(ts) > 0 /\ e.kind \in {"upgrade", "min"} /\ Robust(w, SeqSet(ts))
                     n  == PolicyJudgedIn(robust, e.kind, w, ts)
+                          + (IF WellFormed(w) /\ ~e.raised /\ OpsKnown(w, e.ops) /\ e.kind \in {"upgrade", "min"}
+                             THEN ReadyJudged(e.kind, w, ts, e.marks, e.ops) ELSE 0)
                 IN /\ ReportV(e.tid, e.i, Judge(e, w, ts, robust))
                    /\ (n = 0 \/ PrintT(<<"JUDGED", e.tid, n>>))
              /\ EndMark(l')
